@@ -97,6 +97,7 @@ def _norm_cmp(test, pol, func):
 
 @rule("G1", "bound and length validators reject on exactly the comparison Draft 6 prescribes (boundary included)")
 def g1(ctx, res):
+    _g1_multipleof_exact(ctx, res)
     for cname, (subj, op, kw) in sorted(BOUNDS.items()):
         c = ctx.cls(cname)
         f = c.methods.get("_validate")
@@ -513,6 +514,11 @@ def g3(ctx, res):
                 return "additional"
             if isinstance(inner, ast.Subscript) and is_pat(inner.value) and norm(inner.slice) == "0":
                 return "pattern1"
+            if isinstance(inner, ast.Name) and any(
+                    isinstance(s_, ast.Assign) and len(s_.targets) == 1 and isinstance(s_.targets[0], (ast.Tuple, ast.List))
+                    and len(s_.targets[0].elts) == 1 and norm(s_.targets[0].elts[0]) == inner.id and is_pat(s_.value)
+                    for s_ in p.stmts if isinstance(s_, ast.AST)):
+                return "pattern1"   # `(only,) = patterns`
             b2 = match(_parse("AllOf(*MV_p)"), inner)
             if b2 is not None and is_pat(b2["MV_p"]):
                 return "patternN"
@@ -555,8 +561,10 @@ def g3(ctx, res):
         if labels != want:
             good = False
             bad[str((d, q, one))] = sorted(labels)
-    wrong = any(lab.startswith("other") for labs in table.values() for lab in labs)
-    res.judge(True if good else (None if (opaque and not wrong and not bad) else (False if not opaque or wrong or bad else None)), gi,
+    # a mismatch made only of recognised labels is a refutation; an unreadable construction is not
+    recognised_bad = {k_: v_ for k_, v_ in bad.items() if not any(x.startswith("other") for x in v_)}
+    unreadable = any(lab.startswith("other") for labs in table.values() for lab in labs)
+    res.judge(True if good else (False if recognised_bad and not opaque else (None if (unreadable or opaque) else False)), gi,
               "(declared?, pattern match?) -> additional | patterns | declared | declared+patterns",
               detail={"opaque": sorted(opaque), "mismatches": bad},
               reason="the element a key is validated by is composed from exactly the schemas Draft 6 applies to it")
@@ -833,7 +841,11 @@ def g4(ctx, res):
         if labels != want:
             good = False
             bad[str(a)] = sorted(labels)
-    res.judge(True if good else (None if (opaque and not bad) else False), f, "anyOf: >=1 success; oneOf: exactly 1; allOf: no failure; result = first success",
+    # a return that delegates to something this rule cannot read (a resolver looked up in a table) is not a refutation
+    def readable(lab):
+        return lab.startswith("raise:") or lab == first_result or lab in ("fall",) or (lab.startswith("return:") and "(" not in lab)
+    unreadable = any(not readable(x) for v_ in bad.values() for x in v_)
+    res.judge(True if good else (None if ((opaque and not bad) or unreadable) else False), f, "anyOf: >=1 success; oneOf: exactly 1; allOf: no failure; result = first success",
               detail={"opaque": sorted(opaque), "mismatches": bad},
               reason="the composition verdict is the Draft-6 count of successful branches")
     a1 = ctx.func("_attempt_schema")
@@ -869,6 +881,41 @@ def g4(ctx, res):
     res.judge(True if (has(f"return _attempt_schemas(self.elements, {v}, {pr}, mode=self.mode)", cc)) else None, cc,
               "return _attempt_schemas(self.elements, value, property_, mode=self.mode)",
               reason="every composed element takes part, under the class's own mode")
+
+
+def _g1_multipleof_exact(ctx, res):
+    """multipleOf: integers are decided with exact arithmetic - true division only where an operand is a float."""
+    f = ctx.cls("MultipleOf").methods.get("_validate")
+    if f is None:
+        raise AnalysisError("MultipleOf._validate vanished")
+    scopes = [f]
+    for site in ctx.inf.sites(f)[0]:
+        c_ = getattr(site, "callee", None)
+        if site.kind == "call" and c_ is not None and c_.module is f.module and c_.name.startswith("_") and c_ not in scopes:
+            scopes.append(c_)
+    n_div = 0
+    verdict = None
+    for g in scopes:
+        P = Parents(g)
+        for x in walk_own(g.body):
+            if isinstance(x, ast.BinOp) and isinstance(x.op, ast.Div):
+                n_div += 1
+                gs = flat_guards(P, x)
+                float_guard = any((isinstance_atom(t, pol) or (None, [], None))[1] == ["float"] and (isinstance_atom(t, pol) or (0, 0, False))[2]
+                                  for t, pol in gs)
+                in_fraction = any(isinstance(par, ast.Call) and dotted(par.func) in ("Fraction", "Decimal")
+                                  for par, _, _ in P.chain(x) if par is not None)
+                ok_ = float_guard or in_fraction
+                verdict = ok_ if verdict is None else (verdict and ok_)
+    has_exact = any(isinstance(x, ast.BinOp) and isinstance(x.op, ast.Mod) for g in scopes for x in walk_own(g.body))
+    if n_div == 0:
+        verdict = True if has_exact else None
+    res.judge(verdict if (verdict is None or has_exact) else (verdict and True), f,
+              "quotient = value / multiple_of only under isinstance(multiple_of, float); integers use value % multiple_of",
+              detail={"true_divisions": n_div, "exact_remainder_present": has_exact},
+              reason="int / int goes through a float and loses integrality beyond 2**53: {'multipleOf': 2} would accept 2**53 + 1")
+    if not has_exact and n_div:
+        res.violation(f, "value % multiple_of", reason="no exact remainder is computed any more: every decision goes through a float quotient")
 
 
 # ---------------------------------------------------------------------- G5
@@ -1439,13 +1486,20 @@ def g10(ctx, res):
                     for t in (n.targets if isinstance(n, ast.Assign) else [n.target]):
                         if isinstance(t, ast.Attribute) and norm(t.value) == sp:
                             attrs.add(t.attr)
-    setter = ctx.cls("Element").props["properties"]["set"]
-    for n in walk_own(setter.body):
-        if isinstance(n, ast.Assign):
-            for t in n.targets:
-                if isinstance(t, ast.Attribute) and norm(t.value) == "self":
-                    attrs.add(t.attr)
-    attrs.discard("properties")
+    setter_backed = set()
+    for c in element_family(ctx):
+        for pname, pr_ in c.props.items():
+            st_ = pr_.get("set")
+            if st_ is None:
+                continue
+            setter_backed.add(pname)
+            sp_ = st_.self_param() or "self"
+            for n in walk_own(st_.body):
+                if isinstance(n, (ast.Assign, ast.AnnAssign)):
+                    for t in (n.targets if isinstance(n, ast.Assign) else [n.target]):
+                        if isinstance(t, ast.Attribute) and norm(t.value) == sp_:
+                            attrs.add(t.attr)
+    attrs -= setter_backed   # `self.elements = x` through a setter stores the backing attribute, which is what vars() sees
     # the attribute view compared on both sides: a lambda, a nested def or a module-level helper H with H(self) == H(other)
     candidates = [eq] + [g for g in eq.lambdas] + list(eq.nested.values())
     for node, b in find(f"MV_h(self) == MV_h({other})", eq):
@@ -1520,6 +1574,18 @@ def g10(ctx, res):
                     if bl and br and canon(bl[0]) == canon(br[0]):
                         cmp_ok = True
     res.judge(cmp_ok, eq, "return pub_vars(self) == pub_vars(other)", reason="the filtered attribute dicts are compared for equality")
+    # methods of the element itself that __eq__ delegates to take part in equality: no subclass / metaclass override
+    eq_helpers = set()
+    for x in walk_own(eq.body):
+        if isinstance(x, ast.Call) and isinstance(x.func, ast.Attribute) and norm(x.func.value) in ("self", other) \
+                and x.func.attr in ctx.cls("Element").methods:
+            eq_helpers.add(x.func.attr)
+    for c in element_family(ctx):
+        for hname in sorted(eq_helpers):
+            if hname in c.methods and c.name != "Element":
+                res.violation(c.methods[hname], f"{c.name}.{hname}",
+                              reason="an element subclass (or the metaclass) overrides a method that Element.__eq__ compares through: "
+                                     "its instances are compared by a different set of attributes")
     for c in element_family(ctx):
         for dunder in ("__eq__", "__ne__", "__hash__"):
             if dunder in c.methods and c.name not in ("Element", "ObjectMeta"):
@@ -1603,6 +1669,13 @@ def g11(ctx, res):
                 okc = True
     if okc is None and match(_parse(f"any((MV_n in {D}[MV_n] for MV_n in {D}))"), cyc_test) is not None:
         okc = True
+    if okc is None:
+        # a self-reachability test applied to a NARROWER set than all classes of the table (e.g. only the entry points)
+        for b in bs:
+            reach_test = any(f"in {D}[" in g_ for g_ in b.guard_texts())
+            feeds = (b.name and b.name in cyc_names) or (b.node is not None and any(x is b.node for x in ast.walk(cyc_test)))
+            if reach_test and feeds and norm(b.iter) not in (D, f"{D}.keys()", f"list({D})", f"{D}.items()"):
+                okc = False
     res.judge(okc, od, "cycles = every name that is among its own dependencies",
               reason="every class is tested for self-reachability")
     # (c) the dependency table holds the TRANSITIVE object-class children, by name
@@ -1730,6 +1803,12 @@ def g12(ctx, res):
             verdict = True
         else:
             verdict = False
+    if verdict is None:
+        # the rebuilt list iterates something other than the input itself (zip_longest pads, slices truncate)
+        for b in builders(V(ctx, ic).body):
+            if b.kind == "list" and any(isinstance(x, ast.Call) and dotted(x.func) in ("zip_longest", "itertools.zip_longest")
+                                        for x in ast.walk(ast.Module(body=V(ctx, ic).body, type_ignores=[]))):
+                verdict = False
     res.judge(verdict, ic, "[self[index](sub_value, ...) for index, sub_value in enumerate(value)]",
               reason="every item, in order, no filter: arrays keep their length and order")
     pc = ctx.func("Properties.__call__")
